@@ -59,6 +59,14 @@ def op_source(o):
         if o['nnps']:
             return ('self.compute_accelerations(%d)' % o['i'] if o['i']
                     else 'self.compute_accelerations()')
+        form = o.get('form') or 'kw'
+        if form == 'pos':
+            return 'self.compute_accelerations(%d, False)' % o['i']
+        if form == 'kwonly' and o['i'] == 0:
+            return 'self.compute_accelerations(update_nnps=False)'
+        if form == 'kwboth':
+            return ('self.compute_accelerations(update_nnps=False, index=%d)'
+                    % o['i'])
         return 'self.compute_accelerations(%d, update_nnps=False)' % o['i']
     if o['op'] == 'domain':
         return 'self.update_domain()'
@@ -75,10 +83,10 @@ def stepper_source(cls, arr):
          '    def __init__(self, k=0.0):',
          '        self.k = k', '']
     for m, d in enumerate(arr['meth']):
-        if d['py'] and m > 0:
+        if d['py'] and (m > 0 or d['loop']):
             L += ['    def py_%s(self, dest, t, dt):' % mname(m),
-                  '        REC.py_hook(self, dest, %d, t, dt, %s)' % (
-                      m, bool(d['pyw'])), '']
+                  '        REC.py_hook(self, dest, %d, t, dt, %s, %r)' % (
+                      m, bool(d['pyw']), str(d.get('pop') or 'none')), '']
         if d['loop']:
             L += ['    def %s(self, d_idx, d_x, d_s, d_v, d_au, d_elog, '
                   'd_ecnt, t, dt):' % mname(m),
@@ -178,6 +186,7 @@ class Recorder(object):
         self.log = []
         self.dom = []
         self.cur = [0] * len(arrays)
+        self.nadd = [0] * len(arrays)
         for pa in arrays:
             if self.vis:
                 pa.ecnt[0] = 0.0
@@ -212,10 +221,34 @@ class Recorder(object):
                              dt=self.tq(dt), n=int(n)))
 
     # -- the hooks ---------------------------------------------------------
-    def py_hook(self, stepper, dest, m, t, dt, pyw):
+    def change_population(self, dest, pop):
+        """hooks that add a particle, turn one into a ghost (tag + align) or
+        remove one - exactly what Integrator.tla PopApply says"""
+        ai = self.names.index(dest.name)
+        nr = dest.get_number_of_particles(real=True)
+        uid = dest.get('uid', only_real_particles=False)[:nr]
+        if pop == 'add':
+            k = self.nadd[ai]
+            self.nadd[ai] += 1
+            dest.add_particles(
+                x=np.array([20.0 + 8 * (ai + 1) + k]), h=np.array([H]),
+                m=np.array([1.0]), s=np.array([3.0]), v=np.array([0.0]),
+                au=np.array([0.0]), uid=np.array([100.0 + k]),
+                tag=np.array([0], dtype=np.int32))
+        elif pop == 'ghost' and nr > 0:
+            k = int(np.argmin(uid))
+            dest.get_carray('tag').get_npy_array()[k] = 2
+            dest.align_particles()
+        elif pop == 'remove' and nr > 0:
+            k = int(np.argmax(uid))
+            dest.remove_particles(np.array([k], dtype=np.int64))
+
+    def py_hook(self, stepper, dest, m, t, dt, pyw, pop='none'):
         self.event('py', a=dest.name, m=m, t=t, dt=dt)
         if not self.active:
             return
+        if pop != 'none':
+            self.change_population(dest, pop)
         nr = dest.get_number_of_particles(real=True)
         s = dest.get_carray('s').get_npy_array()
         s[:nr] += 32.0
@@ -283,6 +316,28 @@ def apply_mutation(mutate):
                     break
             return '\n'.join(lines) + '\n'
         H_.IntegratorCythonHelper.get_timestep_code = get_timestep_code
+    elif mutate == 'countfirst':
+        # the number of real particles is read BEFORE the py hook
+        def get_code(self):
+            import re
+            code = orig(self)
+            pat = re.compile(
+                r'(\n[ ]*dst = self\.\w+\n)((?:.*\n)*?)'
+                r'([ ]*NP_DEST = dst\.size\(real=True\)\n)')
+
+            def mv(m):
+                if 'dst = self.' in m.group(2):
+                    return m.group(0)
+                return m.group(1) + m.group(3) + m.group(2)
+            return pat.sub(mv, code)
+        H_.IntegratorCythonHelper.get_code = get_code
+    elif mutate == 'alwaysrefresh':
+        # update_nnps is not forwarded by the compiled integrator
+        def get_code(self):
+            return orig(self).replace(
+                'self.integrator.compute_accelerations(index, update_nnps)',
+                'self.integrator.compute_accelerations(index)')
+        H_.IntegratorCythonHelper.get_code = get_code
     elif mutate == 'sharestepper':
         # later arrays of a stepper class get the first array's compiled
         # stepper (its parameters)
@@ -537,6 +592,7 @@ class Runtime(object):
             nr = pa.get_number_of_particles(real=True)
             g = lambda k: pa.get(k, only_real_particles=False)  # noqa: E731
             x, s, v, au, tag = g('x'), g('s'), g('v'), g('au'), g('tag')
+            uid = g('uid')
             ps = []
             for p in range(len(x)):
                 vals = [x[p], s[p], v[p], au[p]]
@@ -545,7 +601,7 @@ class Runtime(object):
                         any(abs(z) >= (1 << 30) for z in iv):
                     raise OverflowError('non-integer / large data %r' % vals)
                 ps.append(dict(x=iv[0], s=iv[1], v=iv[2], au=iv[3],
-                               g=bool(tag[p] != 0)))
+                               g=bool(tag[p] != 0), uid=int(uid[p])))
             if any(ps[p]['g'] != (p >= nr) for p in range(len(ps))):
                 raise RuntimeError('ghosts not at the end of the array')
             out.append(ps)
